@@ -32,6 +32,12 @@ type History struct {
 	End     string `json:"end,omitempty"`        // final resynchronisation: restart | rescan
 	A1      string `json:"alphabet_s1,omitempty"`
 	A2      string `json:"alphabet_s2,omitempty"`
+	// Indep > 0 selects the independent-sends shape instead: Indep coins,
+	// transactions T1..Tn each spending exactly its own coin (entry point
+	// EP1, explicit input), optionally a child C1 of T1, then the final
+	// resynchronisation End whose per-position answers are enumerated.
+	Indep int  `json:"independent,omitempty"`
+	Child bool `json:"child_of_t1,omitempty"`
 }
 
 func (h History) String() string {
@@ -39,6 +45,18 @@ func (h History) String() string {
 	p = append(p, fmt.Sprintf("fund(%d)", h.Coins))
 	if h.Lease {
 		p = append(p, "lease(F2)")
+	}
+	if h.Indep > 0 {
+		for i := 1; i <= h.Indep; i++ {
+			p = append(p, fmt.Sprintf("T%d(F%d):%s", i, i, h.EP1))
+		}
+		if h.Child {
+			p = append(p, "C1(T1:chg):"+h.EP1)
+		}
+		if h.End != "" {
+			p = append(p, h.End)
+		}
+		return strings.Join(p, " ")
 	}
 	p = append(p, "S1:"+h.EP1)
 	if h.Mid != "" {
@@ -104,7 +122,8 @@ type exec struct {
 	epoch  int
 	where  string
 	failed bool
-	dirty  bool // a wallet operation ran since the last quiescence wait
+	dirty  bool     // a wallet operation ran since the last quiescence wait
+	order  []string // names of the wallet's sends in the order of their first hand-over
 }
 
 var scope84 = waddrmgr.KeyScopeBIP0084
@@ -156,7 +175,7 @@ func (x *exec) txName(h chainhash.Hash) string {
 func (x *exec) opName(op wire.OutPoint) string {
 	n := x.txName(op.Hash)
 	tx := x.txs[n]
-	if tx == nil || n[0] != 'S' || int(op.Index) >= len(tx.TxOut) {
+	if tx == nil || n[0] == 'F' || n == "X" || int(op.Index) >= len(tx.TxOut) {
 		return fmt.Sprintf("%s:%d", n, op.Index)
 	}
 	if string(tx.TxOut[op.Index].PkScript) == string(x.ext) {
@@ -427,6 +446,10 @@ func (x *exec) run(simID int) {
 		x.tracef("lease F2:0")
 	}
 
+	if x.h.Indep > 0 {
+		x.runIndep()
+		return
+	}
 	x.broadcast(1, x.h.EP1, x.al.initial(x.h.A1, x.h.EP1))
 	if x.failed {
 		return
@@ -476,19 +499,69 @@ func (a *alphabets) initial(which, ep string) []Answer {
 	return l
 }
 
-// broadcast performs the initial hand-over of S<which> through entry point ep
-// and checks clauses (1)-(4).
+// sendSpec describes one initial hand-over.
+type sendSpec struct {
+	name    string
+	ep      string
+	minconf int32
+	amt     int64           // 0: everything spendable minus 1e7
+	inputs  []wire.OutPoint // explicit coins (SendOutputsWithInput / WithCustomSelectUtxos)
+	al      []Answer        // answer alphabet (choice point); nil: fixed accept
+}
+
+// broadcast performs the initial hand-over of S<which> through entry point ep.
 func (x *exec) broadcast(which int, ep string, al []Answer) {
-	s := x.s
-	name := fmt.Sprintf("S%d", which)
-	x.where = name + ":" + ep
-	minconf := int32(1)
+	sp := sendSpec{name: fmt.Sprintf("S%d", which), ep: ep, minconf: 1, amt: 3e7, al: al}
 	if which == 2 {
-		minconf = 0
+		sp.minconf, sp.amt = 0, 0
 	}
+	x.broadcastSpec(sp)
+}
+
+// runIndep: independent transactions T1..Tn (each spends exactly its own
+// coin), optionally a child of T1, then a resynchronisation.
+func (x *exec) runIndep() {
+	for i := 1; i <= x.h.Indep; i++ {
+		f := x.txs[fmt.Sprintf("F%d", i)]
+		x.broadcastSpec(sendSpec{name: fmt.Sprintf("T%d", i), ep: x.h.EP1, minconf: 1, amt: 3e7,
+			inputs: []wire.OutPoint{{Hash: f.TxHash(), Index: 0}}})
+		if x.failed {
+			return
+		}
+	}
+	if x.h.Child {
+		t1 := x.txs["T1"]
+		if t1 == nil {
+			ev.Fatal("T1 unknown (%s)", x.h)
+		}
+		for i, o := range t1.TxOut {
+			if string(o.PkScript) != string(x.ext) {
+				x.broadcastSpec(sendSpec{name: "C1", ep: x.h.EP1, minconf: 0, amt: o.Value / 2,
+					inputs: []wire.OutPoint{{Hash: t1.TxHash(), Index: uint32(i)}}})
+			}
+		}
+		if x.failed {
+			return
+		}
+	}
+	if x.h.End != "" {
+		x.resync(x.h.End)
+		if x.failed {
+			return
+		}
+	}
+	x.where = "final"
+	x.observe()
+}
+
+// broadcastSpec performs one initial hand-over and checks clauses (1)-(4).
+func (x *exec) broadcastSpec(sp sendSpec) {
+	s := x.s
+	name, ep, minconf := sp.name, sp.ep, sp.minconf
+	x.where = name + ":" + ep
 	pre := x.observe()
-	amt := int64(3e7)
-	if which == 2 {
+	amt := sp.amt
+	if amt == 0 {
 		var total int64
 		for _, v := range pre.Unspent {
 			total += v
@@ -500,7 +573,13 @@ func (x *exec) broadcast(which int, ep string, al []Answer) {
 		}
 	}
 	outs := []*wire.TxOut{wire.NewTxOut(amt, x.ext)}
-	a := x.choose(al, name+":"+ep)
+	var a Answer
+	if sp.al != nil {
+		a = x.choose(sp.al, name+":"+ep)
+	} else {
+		a = Answer{Name: "accept", Kind: kAccept}
+		x.res.Classes[a.Kind]++
+	}
 	x.res.EPs[ep]++
 	x.res.Ops++
 
@@ -512,7 +591,8 @@ func (x *exec) broadcast(which int, ep string, al []Answer) {
 		sendScript = []error{a.Err}
 	}
 	if ep == "publish" {
-		atx, err := s.W.CreateSimpleTx(&scope84, 0, outs, minconf, 1000, wallet.CoinSelectionLargest, false)
+		atx, err := s.W.CreateSimpleTx(&scope84, 0, outs, minconf, 1000, wallet.CoinSelectionLargest, false,
+			wallet.WithCustomSelectUtxos(sp.inputs))
 		if err != nil {
 			ev.Fatal("CreateSimpleTx for %s failed: %v (%s answers=%v)", name, err, x.h, x.res.Answers)
 		}
@@ -532,7 +612,11 @@ func (x *exec) broadcast(which int, ep string, al []Answer) {
 		case kNotifyChange:
 			s.BE.NotifyAnswers = []error{a.Err}
 		}
-		tx, callErr = s.W.SendOutputs(outs, &scope84, 0, minconf, 1000, wallet.CoinSelectionLargest, "")
+		if len(sp.inputs) > 0 {
+			tx, callErr = s.W.SendOutputsWithInput(outs, &scope84, 0, minconf, 1000, wallet.CoinSelectionLargest, "", sp.inputs)
+		} else {
+			tx, callErr = s.W.SendOutputs(outs, &scope84, 0, minconf, 1000, wallet.CoinSelectionLargest, "")
+		}
 	}
 	x.dirty = true
 	x.settle()
@@ -562,6 +646,7 @@ func (x *exec) broadcast(which int, ep string, al []Answer) {
 	}
 	if _, ok := x.pre[name]; !ok {
 		x.pre[name] = pre
+		x.order = append(x.order, name)
 	}
 	post := x.observe()
 	x.tracef("%s via %s amount=%d answer=%s -> err=%v offered=%d", name, ep, amt, a.Name, callErr, offered)
@@ -578,6 +663,17 @@ func (x *exec) broadcast(which int, ep string, al []Answer) {
 		}
 	}
 
+	if len(sp.inputs) > 0 && tx != nil {
+		for _, in := range tx.TxIn {
+			ok := false
+			for _, op := range sp.inputs {
+				ok = ok || op == in.PreviousOutPoint
+			}
+			if !ok {
+				ev.Fatal("%s was to spend exactly %v but spends %v (%s)", name, sp.inputs, in.PreviousOutPoint, x.h)
+			}
+		}
+	}
 	// clauses (2)-(4): these answers are not failures, the call must succeed
 	if !eff.rejecting() && callErr != nil {
 		x.res.Evals++
@@ -824,6 +920,37 @@ func (x *exec) resync(kind string) {
 			}
 		}
 	}
+	// rejected on rebroadcast: the transaction and its unconfirmed
+	// descendants are forgotten
+	removed := map[chainhash.Hash]bool{}
+	descOf := map[chainhash.Hash]map[chainhash.Hash]bool{}
+	for _, r := range roots {
+		d := map[chainhash.Hash]bool{r: true}
+		for grew := true; grew; {
+			grew = false
+			for h, t := range U {
+				if d[h] {
+					continue
+				}
+				for _, p := range parents(t) {
+					if d[p] {
+						d[h], grew = true, true
+					}
+				}
+			}
+		}
+		descOf[r] = d
+		for g := range d {
+			x.res.Evals++
+			removed[g] = true
+			if count(post.Unmined, g) > 0 || x.known(g) {
+				x.fail("rejected:trace-left:"+ansOf[r].Kind+":rebroadcast",
+					"%s: %s rejected on rebroadcast (%s) but %s is still recorded; before {%s} after {%s}",
+					kind, x.txName(r), ansOf[r].Name, x.txName(g), x.render(pre, true), x.render(post, true))
+				return
+			}
+		}
+	}
 	if open {
 		return // the statement leaves the record open for these answers
 	}
@@ -835,35 +962,94 @@ func (x *exec) resync(kind string) {
 		}
 		return
 	}
-	// rejected on rebroadcast: the transaction and its unconfirmed
-	// descendants are forgotten
-	for _, r := range roots {
-		gone := []chainhash.Hash{r}
-		for h := range U {
-			if dropped[h] {
-				gone = append(gone, h)
+	sort.Slice(roots, func(i, j int) bool { return x.txName(roots[i]) < x.txName(roots[j]) })
+	sig := "rejected:trace-left:" + ansOf[roots[0]].Kind + ":rebroadcast"
+
+	// the coins the forgotten transactions spent are spendable again, their
+	// outputs no longer count, nothing else changes (relative to the
+	// observation at the start of this resynchronisation)
+	exp := &Obs{Unspent: map[wire.OutPoint]int64{}, Epoch: pre.Epoch}
+	for k, v := range pre.Unspent {
+		exp.Unspent[k] = v
+	}
+	exp.Bal[0] = pre.Bal[0]
+	okDelta := true
+	for g := range removed {
+		t := U[g]
+		for i := range t.TxOut {
+			op := wire.OutPoint{Hash: g, Index: uint32(i)}
+			if v, ok := exp.Unspent[op]; ok {
+				exp.Bal[0] -= v
+				delete(exp.Unspent, op)
 			}
 		}
-		for _, g := range gone {
-			if count(post.Unmined, g) > 0 || x.known(g) {
-				x.fail("rejected:trace-left:"+ansOf[r].Kind+":rebroadcast",
-					"%s: %s rejected on rebroadcast (%s) but %s is still recorded; before {%s} after {%s}",
-					kind, x.txName(r), ansOf[r].Name, x.txName(g), x.render(pre, true), x.render(post, true))
-				return
+		first := x.pre[x.txName(g)]
+		for _, in := range t.TxIn {
+			if removed[in.PreviousOutPoint.Hash] {
+				continue
 			}
+			if first == nil {
+				okDelta = false
+				continue
+			}
+			v, ok := first.Unspent[in.PreviousOutPoint]
+			if !ok {
+				okDelta = false
+				continue
+			}
+			exp.Unspent[in.PreviousOutPoint] = v
+			exp.Bal[0] += v
 		}
 	}
+	for _, h := range pre.Unmined {
+		if !removed[h] {
+			exp.Unmined = append(exp.Unmined, h)
+		}
+	}
+	if okDelta {
+		x.res.Evals++
+		if post.Bal[0] != exp.Bal[0] || !sameUnspent(exp, post) || !sameUnmined(exp, post) {
+			exp.Bal[1], exp.Bal[2], exp.Bal[3] = post.Bal[1], post.Bal[2], post.Bal[3]
+			exp.Tip, exp.Leased = post.Tip, post.Leased
+			x.fail(sig, "%s: rejected on rebroadcast %v: the spent coins must be spendable again and the outputs must no longer count: expected {%s} (balances 1..3 not predicted) got {%s}; at the start of the resynchronisation {%s}",
+				kind, an, x.render(exp, true), x.render(post, true), x.render(pre, true))
+			return
+		}
+	} else {
+		x.res.BalSkips++
+	}
+
+	// pure observation: if nothing but the rejected transaction and its
+	// descendants was sent since the observation before it was first sent,
+	// the wallet is back at that observation
 	if len(roots) != 1 {
 		return
 	}
-	ref := x.pre[x.txName(roots[0])]
+	rn := x.txName(roots[0])
+	ref := x.pre[rn]
 	if ref == nil {
 		return
 	}
+	after := false
+	for _, n := range x.order {
+		if n == rn {
+			after = true
+			continue
+		}
+		if !after {
+			continue
+		}
+		t := x.txs[n]
+		if t == nil {
+			continue
+		}
+		if _, inU := U[t.TxHash()]; inU && !descOf[roots[0]][t.TxHash()] {
+			return // an unrelated transaction was sent in between
+		}
+	}
 	x.res.Evals++
 	if !sameObs(ref, post) {
-		x.fail("rejected:trace-left:"+ansOf[roots[0]].Kind+":rebroadcast",
-			"%s: %s rejected on rebroadcast (%s): balances/spendable set differ from those before it was first sent: then {%s} now {%s}",
-			kind, x.txName(roots[0]), ansOf[roots[0]].Name, x.render(ref, true), x.render(post, true))
+		x.fail(sig, "%s: %s rejected on rebroadcast (%s): balances/spendable set differ from those before it was first sent: then {%s} now {%s}",
+			kind, rn, ansOf[roots[0]].Name, x.render(ref, true), x.render(post, true))
 	}
 }
